@@ -131,9 +131,17 @@ def record_from_file(rid: int, parsed: dict, req, exact_lengths: bool = True) ->
             "simple": simple, "co": co}
 
 
-def warped(vid: int, sp, frame, scale: float) -> List[float]:
+def warped(vid: int, sp, frame, scale: float, odd=None) -> List[float]:
+    """odd = None: every lattice line is stretched differently (the four parallel edges of a block all differ);
+    odd = (vertex id, displacement): a product grid with ONE displaced vertex, so that in the blocks around it exactly one
+    of the four parallel edges differs - in any of the four positions of the axis' wire order, the last included"""
     x, y, z = vid % 4, (vid // 4) % 4, vid // 16
-    p = [sp[0][x] * (1 + 0.10 * y + 0.07 * z), sp[1][y] * (1 + 0.08 * x + 0.05 * z), sp[2][z] * (1 + 0.06 * x + 0.09 * y)]
+    if odd is None:
+        p = [sp[0][x] * (1 + 0.10 * y + 0.07 * z), sp[1][y] * (1 + 0.08 * x + 0.05 * z), sp[2][z] * (1 + 0.06 * x + 0.09 * y)]
+    else:
+        p = [sp[0][x], sp[1][y], sp[2][z]]
+        if vid == odd[0]:
+            p = [p[i] + odd[1][i] for i in range(3)]
     return _apply(frame[0], frame[1], p, scale)
 
 
@@ -176,8 +184,12 @@ def lattice_configs(ctx: Ctx, rng: random.Random, limit: int) -> None:
         mesh = cb.Mesh()
         req = []
         kinds = set()
+        odd = None
+        if rng.random() < 0.5:
+            blk = rng.choice(cfg["verts"])
+            odd = (rng.choice(blk), [rng.choice([-1, 1]) * rng.uniform(0.15, 0.3) for _ in range(3)])
         for b in range(cfg["nb"]):
-            pts = [warped(v, sp, frame, scale) for v in cfg["verts"][b]]
+            pts = [warped(v, sp, frame, scale, odd) for v in cfg["verts"][b]]
             op = cb.Loft(cb.Face(pts[:4]), cb.Face(pts[4:]))
             breq = []
             for a in range(3):
